@@ -239,9 +239,56 @@ pub fn lifecycle(trace: &[Value]) -> Vec<Value> {
     out
 }
 
+/// stream key: "<client node>:<stream id>:<writer side>"
+fn sk(e: &Value, writer_is_local: bool) -> String {
+    let n = e["n"].as_i64().unwrap_or(0);
+    let client = if n >= 1 { n } else { e["peer"].as_i64().unwrap_or(1) };
+    let local_side = if n == 0 { "s" } else { "c" };
+    let other = if n == 0 { "c" } else { "s" };
+    format!("{}:{}:{}", client, e["id"], if writer_is_local { local_side } else { other })
+}
+
+/// C01
+pub fn streamdata(trace: &[Value]) -> Vec<Value> {
+    let mut out = vec![json!({"ev":"Reset","run":trace[0]["run"]})];
+    for e in trace {
+        if e["ev"] != "Call" {
+            continue;
+        }
+        let k = e["res"]["k"].as_str().unwrap_or("");
+        match e["op"].as_str().unwrap_or("") {
+            "write" if k == "Ok" => {
+                out.push(json!({"ev":"Write","sk":sk(e, true),"off":e["off"],"n":e["res"]["n"],"key":e["key"]}));
+            }
+            "finish" if k == "Ok" => out.push(json!({"ev":"Finish","sk":sk(e, true)})),
+            "reset" if k == "Ok" => {
+                out.push(json!({"ev":"ResetCall","sk":sk(e, true),"code":e["code"]}));
+            }
+            "read" => {
+                let key = sk(e, false);
+                if let Some(chunks) = e["res"]["chunks"].as_array() {
+                    for ch in chunks {
+                        let runs = ch["runs"].as_array().map(|r| r.len()).unwrap_or(0);
+                        let first = ch["runs"][0][0].as_i64().unwrap_or(-1);
+                        out.push(json!({"ev":"Chunk","sk":key,"ord":e["ordered"],"off":ch["off"],
+                            "len":ch["len"],"first":first,"nruns":runs}));
+                    }
+                }
+                if k == "Finished" || k == "Reset" {
+                    out.push(json!({"ev":"ReadEnd","sk":key,"k":k,
+                        "code":e["res"].get("code").cloned().unwrap_or(json!(-1))}));
+                }
+            }
+            _ => {}
+        }
+    }
+    out
+}
+
 pub fn project(name: &str, trace: &[Value]) -> Vec<Value> {
     match name {
         "lifecycle" => lifecycle(trace),
+        "streamdata" => streamdata(trace),
         "master" => trace.to_vec(),
         o => panic!("unknown projection {o}"),
     }
